@@ -89,6 +89,7 @@ class _Run:
         self.remote = 0
         self.accepted = 0
         self._ix, self._iids = [], []
+        self.others2 = []        # ... and objects of its own, of a pool object's class
         self.srv2 = None         # focus shape 'two daemons': a second daemon in which a pool object is registered as well
         self.in_b = set()        # xkeys that were ever registered in that second daemon (their marks may name it)
 
@@ -692,6 +693,20 @@ class _Run:
         ctx = self.ctx
         xk = ("o", self.serial[op["k"]])
         ids = self.ids_of(xk)
+        if op.get("other"):
+            # ANOTHER object of the pool object's class is registered in the second daemon (and taken out again by 'unreg2'):
+            # what the serializers know about the class is process-wide, what is registered is a matter of each daemon
+            if self.srv2 is None:
+                self.srv2 = Server(ctx, self.plan["servertype"])
+            o2 = O.SHAPES[self.shapes[op["k"]]](-100 - len(self.others2), [])
+            try:
+                self.srv2.daemon.register(o2, "other%d" % len(self.others2))
+            except Exception as x:  # noqa
+                raise S.HarnessError("registration in the second daemon failed: %r" % (x,))
+            self.others2.append(o2)
+            self.sched.ev("reg2-other", self.i, op["k"])
+            ctx.probe("same_class_in_second_daemon")
+            return
         if len(ids) != 1:
             return
         if self.srv2 is None:
@@ -703,6 +718,17 @@ class _Run:
         self.in_b.add(xk)
         self.sched.ev("reg2", self.i, op["k"], ids[0])
         ctx.probe("registered_in_two_daemons")
+
+    def do_unreg2(self, op):
+        """the second daemon unregisters its own objects of the pool object's class again (its last ones of that class)"""
+        if self.srv2 is None or not self.others2:
+            return
+        for n, o2 in enumerate(self.others2):
+            self.srv2.daemon.unregister(o2 if (self.i + n) % 2 else o2._pyroId)
+        del self.others2[:]
+        self.settle()
+        self.sched.ev("unreg2", self.i)
+        self.ctx.probe("second_daemon_unregistered_its_last_of_class")
 
     def do_close2(self, op):
         if self.srv2 is None:
@@ -967,7 +993,7 @@ class _Run:
         self.daemon.register(O.Dispenser(self.pool, self.made, self.hooks), DISP_ID)
         steps = {"par": self.do_par, "tmake": self.do_tmake, "reg": self.do_reg, "unreg": self.do_unreg, "uri": self.do_uri, "proxy": self.do_proxy, "call": self.do_call,
                  "ret": self.do_ret, "gc": self.do_gc, "list": lambda op: self.do_list(op.get("ser", "serpent")),
-                 "reg2": self.do_reg2, "close2": self.do_close2}
+                 "reg2": self.do_reg2, "close2": self.do_close2, "unreg2": self.do_unreg2}
         for i, op in enumerate(plan["ops"]):
             self.i, self.op = i, op
             steps[op["op"]](op)
@@ -1015,7 +1041,7 @@ class RegistryWorld(World):
               "weak_collected", "weak_collected_unknown", "duplicate_refused", "reserved_refused", "forced", "class_registered",
               "generated_id", "registered_listing", "serpent", "json", "msgpack", "multiplex", "thread",
               "shape_len0", "shape_bool0", "shape_state", "par_make", "par_overlap", "par_gc_weak", "strong_survives_gc",
-              "shape_inst", "shape_noweak", "shape_eq", "shape_vars", "shape_setlike", "return_marshal_by_value", "registered_object_returned_by_value_marshal", "registered_in_two_daemons", "second_daemon_closed", "return_proxy_two_daemons", "register_failed_frozen", "register_failed_noweak", "tracked_weak_collected"]
+              "shape_inst", "shape_noweak", "shape_eq", "shape_vars", "shape_setlike", "return_marshal_by_value", "registered_object_returned_by_value_marshal", "registered_in_two_daemons", "same_class_in_second_daemon", "second_daemon_unregistered_its_last_of_class", "second_daemon_closed", "return_proxy_two_daemons", "register_failed_frozen", "register_failed_noweak", "tracked_weak_collected"]
     RULE = ("plan = (server type, generator tier core|extended, 3-10 steps (thorough: -16) of register / unregister / uriFor / "
             "proxyFor / call / return-object / gc / registered over 3 pool objects + 2 classes + ids id0..id2, generated, "
             "colliding ('the current or last id of object k'), reserved; force only in the extended tier; weak for objects; "
@@ -1331,7 +1357,15 @@ class RegistryWorld(World):
                 if o.get("x") != ["o", a] and o.get("k") != a and o.get("id") != "@o%d" % a:
                     ops.append(o)
             ops.append({"op": "reg", "x": ["o", a], "id": rng.choice([None, "id0", "idA"]), "force": False, "weak": rng.random() < 0.25})
-            ops.append({"op": "reg2", "k": a})
+            if rng.random() < 0.5:
+                # ... or: ANOTHER object of the same class lives in the second daemon for a while
+                for _ in range(rng.randint(1, 2)):
+                    ops.append({"op": "reg2", "k": a, "other": True})
+                if rng.random() < 0.5:
+                    ops.append({"op": "ret", "k": a, "ser": rng.choice(RET_SERS)})
+                ops.append({"op": "unreg2"})
+            else:
+                ops.append({"op": "reg2", "k": a})
             if rng.random() < 0.5:
                 ops.append({"op": "ret", "k": a, "ser": rng.choice(RET_SERS)})
             if rng.random() < 0.8:
